@@ -107,6 +107,15 @@ def check_variant(ctx, k, kind, bound):
                 ctx.discharged += 1
         if [e for e in q.events if e[0] == "app-oob"]:
             ctx.fail(q, "application buffer overrun: %r" % ([e for e in q.events if e[0] == "app-oob"][0],))
+        if k == "k_cavr_vol":
+            # every element fetched for the copy must lie wholly inside the sandbox, whatever the pointer slot holds at each fetch
+            adv = q.user.get("adv") or []
+            el = [(a, n_) for (a, n_, v_) in adv if n_ == 4 and not (symex.is_conc(symex.simp(a)) and False)]
+            el = [(a, n_) for (a, n_) in el if "cell" not in str(symex.simp(a - p))[:0] ]
+            reads = [a for (a, n_) in el if str(symex.simp(a)) != str(symex.simp(p))]
+            if reads:
+                ctx.require(q, z3.And(*[z3.And(z3.UGE(a, base), z3.ULE(zext(a - base, 128) + 4, BV(SIZE, 128))) for a in reads]),
+                            "each element read by a range copy lies wholly inside the sandbox even if the sandbox rewrites the pointer slot between rlbox's fetches")
         # content handed to the verifier must come from sandbox reads, never from uninitialised application bytes
         for ent in lg:
             for x in ent[1:]:
@@ -150,7 +159,7 @@ def check_variant(ctx, k, kind, bound):
 
 VARIANTS = [("k_cav_vol_int", "val"), ("k_cav_vol_long", "val"), ("k_cav_ptr_int", "ptr"), ("k_cav_volptr_long", "ptr"), ("k_cav_struct", "struct"),
             ("k_cav_arr", "arr"), ("k_cavr", "range"), ("k_cavs_unique", "string_u"), ("k_cavs_string", "string_s"), ("k_deny_copy", "deny"),
-            ("k_cavs_vol_unique", "string_u"), ("k_cavs_vol_string", "string_s"), ("k_cav_arr2d", "arr"), ("k_cavba_vol", "bufaddr")]
+            ("k_cavs_vol_unique", "string_u"), ("k_cavs_vol_string", "string_s"), ("k_cav_arr2d", "arr"), ("k_cavba_vol", "bufaddr"), ("k_cavr_vol", "range")]
 
 
 def check_seq(ctx, k, kind):
